@@ -169,10 +169,12 @@ func c05updAttr(typ uint8, optmask int) {
 	alen := int(buf[2])<<8 | int(buf[3])
 	vAssume(len(buf) == 4+alen)
 	vAssume(buf[5] == typ)
+	// the attribute's own length field covers at least the rest of the area: exact fill or any
+	// over-long declared length (so no second attribute follows; the pair harness covers that)
 	if buf[4]&0x10 != 0 { // extended length
-		vAssume(alen >= 4 && int(buf[6])<<8|int(buf[7]) == alen-4)
+		vAssume(alen >= 4 && int(buf[6])<<8|int(buf[7]) >= alen-4)
 	} else {
-		vAssume(int(buf[6]) == alen-3)
+		vAssume(int(buf[6]) >= alen-3)
 	}
 	opt := &MarshallingOption{}
 	if optmask&1 != 0 {
